@@ -108,3 +108,14 @@ def same_octets(a, b):
     both solvers decide where nested extractions of symbolic length make them time out on the equation itself."""
     k = E.fresh('k')
     return z3.And(z3.Length(a) == z3.Length(b), z3.Implies(z3.And(k >= 0, k < z3.Length(a)), a[k] == b[k]))
+
+
+def local_zone_reading(ex):
+    """datetime.timestamp() of a time value reads a NAIVE datetime in the local zone of the process: for the time fields (which may hold
+    naive values, read as UTC by calendar.timegm(d.utctimetuple())) it is another number than the instant's epoch unless the machine runs in
+    UTC - a symbol of its own, so that octets computed from it are not provably the epoch's"""
+    import z3 as _z3
+    from pyvc import engine as _E
+    h = lambda ex_, st, o, a: [(st, _E.VInt(_z3.Int('timestamp_of_the_value_read_in_the_local_zone_of_the_process')))]
+    for nm in ('datetime', 'datetime.now()', 'datetime.datetime'):
+        ex.hooks[('ext:' + nm, 'timestamp')] = h
